@@ -796,3 +796,21 @@ history!(c05_slash_skip_k2, pool true, prefix [], 2 of [A1, ev(TIMEOUT, 1), evb(
     vcover!(m.n_skip >= 3 && m.n_nf >= 1, "skip and notar-fallback votes are shown to the pool");
     vcover!(m.n_notar >= 1 && m.n_final >= 1, "notar and final votes are shown to the pool");
 });
+
+// deeper histories (thorough tier)
+history!(c05_g_final_k4, prefix [A1], 4 of [evb(CNOTAR, 1, 1), evb(S2N, 1, 2), ev(S2S, 1), A2, evb(CNOTAR, 2, 3)], |m| {
+    vcover!(m.n_final >= 2, "two final votes are cast");
+    vcover!(m.n_nf >= 1 && m.n_sf >= 1 && m.n_notar >= 2, "both fallback votes in slot 1, notar vote in slot 2");
+});
+history!(c05_g_retired_k3, prefix [A1, evb(CNOTAR, 1, 1)], 3 of [evb(S2N, 1, 2), ev(S2S, 1), ev(TIMEOUT, 2), ev(INVALID, 1), B1, evb(CNOTAR, 1, 1), A2], |m| {
+    vcover!(m.n_final >= 1 && m.n_notar >= 2, "slot 2 is notarized after slot 1 was finalized");
+    vcover!(m.n_quiet >= 3, "three events cast no vote");
+});
+history!(c05_g_skipped_k3, prefix [ev(TIMEOUT, 1)], 3 of [A1, evb(S2N, 1, 1), evb(S2N, 1, 2), evb(CNOTAR, 1, 1), A2, ev(CSKIP, 1)], |m| {
+    vcover!(m.n_nf >= 2, "two notar-fallback votes are cast");
+    vcover!(m.n_quiet >= 3, "three events cast no vote");
+});
+history!(c05_w_prune_k3, prefix [RDY_P, A4], 3 of [ev(CFINAL, 5), evb(CNOTAR, 4, 1), A5, ev(TIMEOUT, 5), ev(TIMEOUT, 6), evb(S2N, 4, 2)], |m| {
+    vcover!(m.n_final >= 1 && m.n_skip >= 1, "a final vote and a skip vote are cast");
+    vcover!(m.n_quiet >= 2, "two events cast no vote");
+});
